@@ -7,7 +7,7 @@ From Coq Require Import NArith Bool List Lia.
 From stdpp Require Import base list option.
 From RecordUpdate Require Import RecordSet.
 From RC Require Import Hdr Machine RunInd.
-From RC Require Import SafeColl.
+From RC Require Import SafeCollQ.
 Import ListNotations RecordSetNotations.
 Local Open Scope N_scope.
 
@@ -300,19 +300,3 @@ Ltac nleaf Hrec :=
 
 Ltac nrun Hrec := repeat (progress (cbv beta iota) || nstep Hrec); try (nleaf Hrec).
 
-Section Steps.
-  Context (K : conf) (P : prog).
-  Context (rec : call -> machine -> machine * outcome).
-  Hypothesis Hrec : nfspec rec.
-
-  Notation NF X := (X.2 <> OFuel -> nofuel X.1).
-
-  Lemma nf_step_script self cs m : nofuel m -> NF (step_script rec self cs m).
-  Proof. intros Hm. unfold step_script. nrun Hrec. Qed.
-  Lemma nf_step_store r v m : nofuel m -> NF (step_store rec r v m).
-  Proof. intros Hm. unfold step_store. nrun Hrec. Qed.
-  Lemma nf_step_drop_cc o m : nofuel m -> NF (step_drop_cc K P rec o m).
-  Proof. intros Hm. unfold step_drop_cc. nrun Hrec. Qed.
-  Lemma nf_step_drop_value o m : nofuel m -> NF (step_drop_value K P rec o m).
-  Proof. intros Hm. unfold step_drop_value. nrun Hrec. Qed.
-End Steps.
